@@ -187,7 +187,20 @@ def pick_indices(picks, n, distinct=True):
     return out
 
 
-def as_container(idxs, how):
+def as_container(idxs, how, real=None):
+    if how == "own_view" and real is not None:
+        # the caller passes a row of the object's own term array (a numpy view): del a[a.bonds[k]]
+        want = sorted(int(i) for i in idxs)
+        for kind in ("bonds", "angles", "dihedrals", "impropers"):
+            arr = getattr(real, kind)
+            for k in range(len(arr)):
+                if sorted(int(x) for x in arr[k]) == want and len(set(want)) == len(want):
+                    return arr[k]
+        return list(idxs)
+    return _as_container(idxs, how)
+
+
+def _as_container(idxs, how):
     if how == "tuple":
         return tuple(idxs)
     if how == "ndarray":
@@ -292,7 +305,18 @@ def apply_op(pool, op, ctx, prefix="c09"):
             ctx.count("emptied_kind")
         if not idx:
             return set()
-        guarded(prefix, "delete %s" % (idx,), R[o].__delitem__, as_container(idx, op.get("container", "list")))
+        if op.get("container") == "own_view":
+            # delete exactly the atoms of one of the object's own terms, passing the term row itself
+            rows = [t.atoms for kk in KINDS for t in M[o].terms[kk] if len(set(t.atoms)) == len(t.atoms)]
+            if rows:
+                idx = list(rows[int(op["picks"][0] * len(rows)) % len(rows)])
+                ctx.count("deletions_by_own_term_view")
+        if op.get("many") and n > 12:
+            # delete a large scattered subset (sparse survivors with high indices)
+            keep = set(pick_indices(op["picks"], n))
+            idx = [i for i in range(n) if i not in keep]
+            ctx.count("large_deletions")
+        guarded(prefix, "delete %s" % (idx,), R[o].__delitem__, as_container(idx, op.get("container", "list"), R[o]))
         M[o].delete(idx)
         if len(M[o].atoms) == 0:
             ctx.count("all_atoms_deleted")
@@ -539,7 +563,7 @@ def gen_ops(rng, nobj, nops, cfg, weights=None):
                         "suffix": "_v%d" % rng.randint(1, 9), "as_list": rng.random() < 0.7, "values": [round(rng.uniform(-2, 2), 4) for _ in range(5)]})
         elif k == "restart":
             ops.append({"op": "restart", "obj": rng.randrange(cur), "style": rng.choice(["full", "full", "atomic"]),
-                        "via": rng.choice(["path", "file", "save_lmpdat"]), "fault": None})
+                        "via": rng.choice(["path", "file", "save_lmpdat"]), "fault": None, "keep": rng.random() < 0.5})
     return ops
 
 
